@@ -14,7 +14,7 @@ CONSTANTS
   Slack = 150
   Bound = 500
   MaxAssoc = 12
-  Props = {"MetricsLanguage", "CreateOnce", "CreateOnlyValid", "OnePerClient", "FwdAuthentic", "FwdOnce", "FwdComplete", "ReplyAuthentic", "ReplyOnce", "SaltsFresh", "ReplyComplete", "SrcPrivate", "SrcStable", "OwnerOnly", "PktCSound", "PktTSound", "PktCPerDatagram", "PktTPerReply", "RemoveOnce", "NoEarlyRemoval", "ReclaimedInTime", "ShutdownReclaimed", "DeadlineMonotone", "WriteExtends", "NoEarlyClose", "CloseOnce", "FastCloseRule"}
+  Props = {"MetricsLanguage", "CreateOnce", "CreateOnlyValid", "OnePerClient", "FwdAuthentic", "FwdOnce", "FwdComplete", "ReplyAuthentic", "ReplyOnce", "SaltsFresh", "ReplyComplete", "SrcPrivate", "SrcStable", "OwnerOnly", "PktCSound", "PktTSound", "PktCPerDatagram", "PktTPerReply", "PktTSize", "RemoveOnce", "NoEarlyRemoval", "ReclaimedInTime", "ShutdownReclaimed", "DeadlineMonotone", "WriteExtends", "NoEarlyClose", "CloseOnce", "FastCloseRule"}
   IPOf <- TrIPOf
   InitList <- TrInitList
   SaltSz <- TrSaltSz
